@@ -136,6 +136,41 @@ Definition spec_iter (o : obs) (w : which) (m : list bool) : list sitem_spec :=
                    sp_targets := sort_uniq (map d_target ds); sp_mask := mi |})
       (indices_of (specfield w) o m).
 
+(* ---------------------------------------------------------------- PART 1b: abandoned iteration, selecting bodies *)
+(* The consumer leaves the loop (break, return, exception, generator closed or garbage collected) while item
+   number n (0-based) is current: the generator has no try/finally, so NOTHING after that yield runs - neither
+   _set_keep(old_timekeep) nor _selection.pop(key) nor the final re-select of the saved criteria.  The first n items were
+   complete iterations.  If the selection has n items or fewer, the loop ends normally. *)
+Record abandoned := { ab_index : Z; ab_name : Z; ab_target : Z; ab_st : st }.
+Definition iterate_break {B} (O : sobs) (w : which) (body : st -> res (B * st)) (n : nat) (s : st)
+  : res (list (yielded B) * option abandoned * st) :=
+  let l := indices_of (it_field w) (so O) (tk s) in
+  match nth_error l n with
+  | None => match iterate O w body s with Ok (ys, sf) => Ok (ys, None, sf) | Err e => Err e end
+  | Some v =>
+      match it_loop O w (tk s) body (firstn n l) s with
+      | Err e => Err e
+      | Ok (ys, s') =>
+          match select (so O) s' (yield_kw w v) with
+          | Err e => Err e
+          | Ok s1 =>
+              match name_of O w v, indices_of d_target (so O) (tk s1) with
+              | Some nm, t :: _ => Ok (ys, Some {| ab_index := v; ab_name := nm; ab_target := t; ab_st := s1 |}, s1)
+              | _, _ => Err EFail
+              end
+          end
+      end
+  end.
+
+(* a loop body that itself calls select() (any number of calls); result of the body = the state it leaves *)
+Fixpoint run_calls (o : obs) (s : st) (calls : list kwargs) : res st :=
+  match calls with
+  | [] => Ok s
+  | c :: rest => match select o s c with Ok s' => run_calls o s' rest | Err e => Err e end
+  end.
+Definition body_calls (O : sobs) (calls : list kwargs) (s1 : st) : res (st * st) :=
+  match run_calls (so O) s1 calls with Ok s2 => Ok (s2, s2) | Err e => Err e end.
+
 (* ================================================================================================ *)
 (* PART 2: segmentation of an observation (format classes)                                            *)
 Open Scope nat_scope.
@@ -357,5 +392,33 @@ Definition wire_32 (x : sx) : sx :=
   match x with
   | L [n; st; gr; lb; tg; sg] =>
       of_seg (to_nat n) (segment_v1 (to_Zs st) (to_Zs gr) (to_Zs lb) (to_Zs tg) (to_nats sg))
+  | _ => sx_err
+  end.
+
+(* (obs state_cd label_cd calls which body_calls break_at) -> (statuses state_before model spec)
+   the generator `which` with a loop body that issues the select() calls `body_calls` at every yield; break_at < 0:
+   run to exhaustion, else the consumer leaves the loop while item number break_at is current *)
+Definition of_abandoned (a : option abandoned) : sx :=
+  match a with
+  | Some a => L [I (ab_index a); I (ab_name a); I (ab_target a); of_state (ab_st a)]
+  | None => L []
+  end.
+Definition wire_34 (x : sx) : sx :=
+  match x with
+  | L [ob; stc; lbc; calls; I wo; bcalls; I brk] =>
+      let o := to_obs ob in
+      let O := {| so := o; so_state := to_cd stc; so_label := to_cd lbc |} in
+      let '(statuses, s0) := run_prior o (init o) (map to_kwargs (to_list calls)) in
+      let w := which_of wo in
+      let body := body_calls O (map to_kwargs (to_list bcalls)) in
+      let model :=
+        if brk <? 0 then of_run of_state (iterate O w body s0)
+        else match iterate_break O w body (Z.to_nat brk) s0 with
+             | Ok (ys, ab, sf) => L [I 0; L (map (of_yield of_state) ys); of_abandoned ab; of_state sf]
+             | Err ETypeError => L [I 1]
+             | Err EFail => L [I 2]
+             end in
+      let spec := L (map (of_spec_item (fun _ => L [])) (spec_iter o w (tk s0))) in
+      L [of_Zs statuses; of_state s0; model; spec]
   | _ => sx_err
   end.
